@@ -278,6 +278,15 @@ class C01(Prop):
                     recent.append((x, nm, ch))
                 ops.append({'op': 'fire', 'x': x, 'e': eid, 'n': nm, 'ch': ch})
                 eid += 1
+                if rng.random() < 0.25:
+                    # the same Event OBJECT fired again (mostly on another channel), before or after its first firing
+                    # is dispatched: every firing is delivered to the handlers of the channel IT was fired on
+                    if rng.random() < 0.4:
+                        ops.append({'op': 'flush', 'r': root(x)})
+                    x2 = x if rng.random() < 0.7 else rng.randrange(NCOMP)
+                    ch2 = rng.choice([c for c in ['*', 'a', 'b', {'comp': rng.randrange(NCOMP)}] if c != ch] or [ch])
+                    ops.append({'op': 'fire', 'x': x2, 'e': eid, 'n': nm, 'ch': ch2, 'same': eid - 1})
+                    eid += 1
                 if rng.random() < 0.5:
                     ops.append({'op': 'flush', 'r': root(x)})
             else:
@@ -305,6 +314,7 @@ class C01(Prop):
         w = World(case)
         hs = {h['hid']: h for h in case['handlers']}
         fired = {}
+        evobj = {}
         status = 0
         graph_err = None
         snap = {}          # eid -> expected set computed from the live real graph at dispatch? (oracle uses its own shadow)
@@ -340,7 +350,11 @@ class C01(Prop):
                 else:
                     raise RuntimeError('unregister never completed')
             elif k == 'fire':
-                ev = EVCLS[o['n']](o['e'])
+                if 'same' in o:
+                    ev = evobj[o['same']]               # the object of an earlier firing (its args carry that id)
+                else:
+                    ev = EVCLS[o['n']](o['e'])
+                evobj[o['e']] = ev
                 w.comps[o['x']].fire(ev, w.real_chan(o['ch']))
                 fired[o['e']] = o
             elif k == 'flush':
@@ -378,7 +392,19 @@ class C01(Prop):
                 ops.append('OFire %s %s %s %s' % (natlit(o['x']), natlit(o['e']), natlit(NAMES.index(o['n'])), chan_term(o['ch'])))
             elif k == 'flush':
                 ops.append('OFlush %s' % natlit(o['r']))
+        al = self.aliases(case)
+        if al:
+            return 'obs_nonempty_alias %s [%s] [%s]%%nat' % (cs, '; '.join(ops), '; '.join('(%d, %d)' % (e, a) for e, a in sorted(al.items())))
         return 'obs_nonempty %s [%s]' % (cs, '; '.join(ops))
+
+    @staticmethod
+    def aliases(case):
+        """firing id -> id of the first firing of the same Event object (only for re-fired objects)"""
+        al = {}
+        for o in case['ops']:
+            if o['op'] == 'fire' and 'same' in o:
+                al[o['e']] = al.get(o['same'], o['same'])
+        return al
 
     def obs_for_model(self, case, obs):
         if isinstance(obs, dict) and '__crash__' in obs:
@@ -449,6 +475,20 @@ class C01(Prop):
             elif k == 'flush':
                 dispatch(o['r'])
         got = {e: h for e, h in obs['deliveries']}
+        al = self.aliases(case)
+        if al:
+            # per Event object: the handlers of all its firings together (a multiset); duplicates within ONE firing
+            # show up as a count that is too high
+            merged = {}
+            for e, exp in expected.items():
+                merged.setdefault(al.get(e, e), []).extend(exp)
+            multi = set(al.values())
+            for e in multi:
+                g, exp = got.get(e, []), sorted(merged.pop(e, []))
+                if g != exp:
+                    return ('event object %d (fired %d times, each firing on its own channel) was delivered to handlers %r, '
+                            'the handlers matching its firings are %r' % (e, 1 + sum(1 for v in al.values() if v == e), g, exp))
+            expected = merged
         for e, exp in expected.items():
             g = got.get(e, [])
             if len(g) != len(set(g)):
@@ -456,7 +496,7 @@ class C01(Prop):
             if g != exp:
                 return 'event %d delivered to handlers %r, matching live handlers are %r' % (e, g, exp)
         for e in got:
-            if e not in expected:
+            if e not in expected and e not in set(al.values()):
                 return 'event %d was delivered although never dispatched in the history' % e
         return None
 
